@@ -291,6 +291,15 @@ pub enum Op {
     EnableLex,
     EnableVec,
     Ticket { issuer: String, seq: i64, capacity: Option<u64> },
+    /// a ticket granting the current end of the committed payload region plus `slack` bytes
+    TicketRel { seq: i64, slack: u64 },
+    /// bind the memory to a dashboard memory id (needed before signed tickets are considered)
+    Bind { memory: u64 },
+    /// a signed ticket whose 64-byte signature is random (the vendor key is not available)
+    SignedTicket { issuer: String, seq: i64, capacity: Option<u64>, memory: u64, sig_seed: u64 },
+    /// create / remove a file next to the memory (forbidden sidecars)
+    PlantSidecar { name: String },
+    RemoveSidecar { name: String },
     BeginBatch(BatchSpec),
     EndBatch,
     CommitSkipIndexes,
@@ -323,7 +332,11 @@ impl Op {
             Op::Verify { .. } => "verify",
             Op::EnableLex => "enable_lex",
             Op::EnableVec => "enable_vec",
-            Op::Ticket { .. } => "ticket",
+            Op::Ticket { .. } | Op::TicketRel { .. } => "ticket",
+            Op::Bind { .. } => "bind",
+            Op::SignedTicket { .. } => "signed_ticket",
+            Op::PlantSidecar { .. } => "plant_sidecar",
+            Op::RemoveSidecar { .. } => "remove_sidecar",
             Op::BeginBatch(_) => "begin_batch",
             Op::EndBatch => "end_batch",
             Op::CommitSkipIndexes => "commit_skip_indexes",
